@@ -796,6 +796,18 @@ class Runner:
                 r2 = self.call(resumed)
                 if r2[0] != 'ok' or r2[1] != pre.text:
                     viol.append(('C04', 'iter_eq', 'iterating an %s in two goes yields %r for %r' % (nm, r2[1], pre.text)))
+            # the consumer edits the item it was handed before it asks for the next one: items are s[k], not each other
+            def editing():
+                got = []
+                for c in x:
+                    got.append((c._s, O.texts(O.acts(c)[0]) if c._s else None))
+                    c.apply_formatting('[99', 0, None)
+                    c += 'zz'
+                return got
+            r4 = self.call(editing)
+            want4 = [(pre.text[i], O.texts(pre.acts[i])) for i in range(len(pre.text))]
+            if r4[0] != 'ok' or r4[1] != want4:
+                viol.append(('C04', 'iter_eq', 'iterating %r while the items handed out are edited yields %r, the characters are %r' % (pre.text, r4[1], want4)))
             # the value changes while it is iterated (in place: shorter, longer, other text): every item is the
             # character then at its index, and the iteration ends at the then current length — it never raises
             if len(pre.text) >= 2:
@@ -1458,6 +1470,8 @@ class Runner:
         r = rng.random()
         if r < 0.5:
             new = ('s', rng.choice(['', 'x', 'xy', old + old, 'a', '--', old[::-1]]))
+            if rng.random() < 0.2:
+                new = ('s', StrSub(new[1]))          # an instance of a str subclass is a str (not an AnsiStr)
         elif r < 0.8:
             new = ('A', self.pick())
         else:
@@ -1606,6 +1620,10 @@ class Runner:
         """delegating queries: executed and compared with str directly (no model step needed)"""
         rng = self.rng
         x = self.pick()
+        if rng.random() < 0.08:
+            # texts that mean something to Python itself: keywords, soft keywords, dunder names, digits first
+            x = self.A(rng.choice(['class', 'None', 'def', 'True', 'lambda', 'match', 'Class', '__init__', '_', '1a', 'a b', 'ünï', 'yield', 'print']),
+                       rng.choice(['red', 'bold']))
         t = x._s
         sub = self.pattern(x)
         a, b = self.bound(x), self.bound(x)
@@ -1827,6 +1845,8 @@ class Runner:
     def op_twin(self):
         rng = self.rng
         x = self.pick()
+        if rng.random() < 0.2 and '\x1b' not in x._s:
+            x = self.A(x._s)          # a receiver without any formatting: there is no shortcut through `str` for it
         exotic = False
         if rng.random() < 0.2:
             exotic = True
@@ -1924,7 +1944,10 @@ class Runner:
             mo = _re.search(_re.escape(pat) if pat else 'a?', x._s)
         except _re.error:
             pass
-        spec = rng.choice([None, '', '>8:red', '*^9', '>7', '*^8:bold', '<6', '.-<9:blue', ':bold;red', '12'])
+        spec = rng.choice([None, '', '>8:red', '*^9', '>7', '*^8:bold', '<6', '.-<9:blue', ':bold;red', '12',
+                           # where the library's grammar and Python's mini-language part ways: the library's wins
+                           '08', '>08', '^08', 'x-<8', '_+^8', '0<7', '+>9', '<'])
+
         calls = [
             ('apply_formatting', (arg, st, en, rng.random() < 0.5), {}),
             ('apply_formatting', (arg, 0, None, False), {}), ('apply_formatting', (arg,), dict(topmost=False)), ('apply_formatting', (arg, 0), {}),
@@ -1979,6 +2002,24 @@ class Runner:
             if got[0] != ref[0] or (got[0] == 'ok' and got[1] != ref[1]):
                 viol.append(('C13', 'ansistr_op_eq', 'a fresh AnsiStr of %r answers %r at %d, the AnsiString %r' % (v._s, got[1], k, ref[1])))
                 viol.append(('C17', 'ansistr_twin', 'a fresh AnsiStr of %r answers %r at %d, the AnsiString %r' % (v._s, got[1], k, ref[1])))
+        # ---- an answer is the caller's: editing the list ansi_settings_at() returned changes nothing for the next caller
+        for obj, nm in ((self.S(x), 'AnsiStr'), (x.copy(), 'AnsiString')):
+            for k in (rng.randint(0, max(0, len(x._s) - 1)), len(x._s) + 2, -1):
+                def probe():
+                    first = obj.ansi_settings_at(k)
+                    want = [str(q) for q in first]
+                    first.append(self.mod.AnsiSetting('95')); first[:0] = [self.mod.AnsiSetting('7')]
+                    if len(first) > 2:
+                        del first[1]
+                    return want, [str(q) for q in obj.ansi_settings_at(k)], obj.settings_at(k)
+                r5 = self.call(probe)
+                if r5[0] != 'ok' or r5[1][0] != r5[1][1] or ';'.join(r5[1][0]) != r5[1][2]:
+                    viol.append(('C17', 'settings_at_join', '%s of %r: ansi_settings_at(%d) gave %r, after the caller edited that list it gives %r, settings_at %r' % (
+                        nm, x._s, k, r5[1][0] if r5[0] == 'ok' else r5[1], r5[1][1] if r5[0] == 'ok' else None, r5[1][2] if r5[0] == 'ok' else None)))
+                    viol.append(('C08', 'result_aliased', '%s.ansi_settings_at(%d) hands out a list it keeps' % (nm, k)))
+                    if nm == 'AnsiStr':
+                        viol.append(('C13', 'ansistr_op_eq', 'AnsiStr.ansi_settings_at(%d) hands out a list it keeps' % k))
+                    break
         # ---- things that are not plain method calls
         r1 = self.call(lambda: [str(c) for c in a]); r2 = self.call(lambda: [str(c) for c in x])
         if r1 != r2 and not (r1[0] == 'err' and r2[0] == 'err'):
@@ -2216,6 +2257,11 @@ def simple_texts(a, mod):
         else:
             return None
     return out
+
+class StrSub(str):
+    """a user-defined str subclass (like an enum.StrEnum member): a str for every purpose"""
+    __slots__ = ()
+
 
 def only_codes(a):
     t = a[0]
